@@ -542,6 +542,7 @@ func eqPointwise(c *Ctx, a *flAgg, recv, name, field string, guards []string, el
 			continue
 		}
 		// classify literals
+		guardTrue := map[string]bool{}
 		guardFalse := false
 		elemFalse := false
 		loopDone := false
@@ -551,6 +552,8 @@ func eqPointwise(c *Ctx, a *flAgg, recv, name, field string, guards []string, el
 			case contains(guards, n):
 				if !lt.Pol {
 					guardFalse = true
+				} else {
+					guardTrue[n] = true
 				}
 			case strings.HasPrefix(n, "?") && lt.Atom.Op == OpBin && lt.Atom.Tok == token.LSS && isLenOf(q, lt.Atom.Args[1], field):
 				// loop control: k < len(x.F)
@@ -578,6 +581,13 @@ func eqPointwise(c *Ctx, a *flAgg, recv, name, field string, guards []string, el
 				}
 			default:
 				fail("unexpected condition " + n)
+			}
+		}
+		if res {
+			for _, g := range guards {
+				if !guardTrue[g] {
+					fail("returns true on a path that never tested " + g + " (" + litsString(p) + ")")
+				}
 			}
 		}
 		switch {
